@@ -5,7 +5,7 @@ COMPONENTS_SIM = {
               'guest code (scripted by the plan)', 'fault box (allocator / create / grant / lookup failures)'],
 }
 
-WORLDS = ['apptoken']
+WORLDS = ['apptoken', 'mem']
 
 PROPS = {
     'C15': dict(
@@ -25,4 +25,38 @@ PROPS = {
                      'limit 255 for uint8_t is excluded: the scan loop cannot terminate there by construction of the type, not by the algorithm',
                      'released-token sweep after each step checks the 6 most recently released tokens, not all of them'],
     ),
+
 }
+
+MEM_RULE = ('one run = one seeded plan (<=60 ops) over 1-4 sim-backend sandboxes (region 4 KiB / 64 KiB / 1 MiB, mask or registry flavour): '
+            'create (with injected backend failure) / destroy / re-create in any order, allocation (with injected null and straddling results), '
+            'pointer-derivation chains (+ - += -= ++ -- [] & * -> fields casts opaque) with operands of 5 integer types as plain, tainted and '
+            'in-sandbox tainted_volatile values, loads/stores of pointer cells, struct pointer fields and arrays of pointers, whole-struct copies, '
+            'hostile guest writes of arbitrary 32-bit patterns into cells, hostile function results and callback arguments, assign_raw_pointer / '
+            'UNSAFE_accept_pointer over 14 address classes, registrations and by-name invocations across incarnations; '
+            'non-trivial = at least one fault fired or reach probe hit; distinct = distinct FNV-1a hashes of the event log')
+MEM_WORLD = dict(world='mem', variants=['plain'], quick=dict(count=64000, time_limit=60), thorough=dict(count=6000000, time_limit=900))
+MEM_ASSUME = ['the sim backend maps every 32-bit representation into its region (offset modulo size), as the 4 GiB reservations of real plug-ins do; '
+              'offset 0 shares its representation with null and is exempt from round-trip checks',
+              'oracle region table is the simulator\'s own (sim::g_regions), never the backend predicates',
+              '&*p and &p[n] on registered-struct pointers do not compile with the unchanged headers (const-correctness of the generated operator&) and are not generated']
+
+PROPS.update({
+    'C02': dict(level='exploration', worlds=[MEM_WORLD], rule=MEM_RULE, components=COMPONENTS_SIM,
+                expect_probes=['address_in_other_live_sandbox', 'address_in_destroyed_region', 'address_4GiB_alias', 'two_or_more_live_sandboxes'],
+                assumptions=MEM_ASSUME + ['only the run-time half of C02 (assign_raw_pointer on tainted and tainted_volatile, UNSAFE_accept_pointer) is decided; every does-not-compile clause is out of reach of this technique']),
+    'C03': dict(level='exploration', worlds=[MEM_WORLD], rule=MEM_RULE, components=COMPONENTS_SIM,
+                expect_probes=['arith_on_null_pointer', 'field_addr_on_null_pointer', 'operand_in_sandbox_memory', 'F1_hostile_cell_value',
+                               'F1_hostile_result', 'F1_hostile_callback_argument', 'F3_sbx_malloc_null', 'F4_sbx_malloc_straddle', 'F8_grant_refused'],
+                assumptions=MEM_ASSUME),
+    'C04': dict(level='exploration', worlds=[MEM_WORLD], rule=MEM_RULE, components=COMPONENTS_SIM,
+                expect_probes=['two_or_more_live_sandboxes', 'struct_copied_through_application', 'registry_consulted_for_live_sandbox', 'sandbox_recreated'],
+                assumptions=MEM_ASSUME),
+    'C14': dict(level='exploration', worlds=[MEM_WORLD], rule=MEM_RULE, components=COMPONENTS_SIM,
+                expect_probes=['create_on_created', 'destroy_on_not_created', 'malloc_outside_window', 'free_outside_window', 'register_outside_window',
+                               'unregister_outside_window', 'sandbox_recreated', 'F6_create_fail', 'create_after_failed_create',
+                               'registry_consulted_for_destroyed_sandbox', 'old_incarnation_owner_released_with_new_incarnation_alive',
+                               'owner_destroyed_after_destroy_sandbox'],
+                assumptions=MEM_ASSUME + ['a second create after a failed backend create: the statement is silent, both outcomes are accepted',
+                                          'frees/unregistrations "ignored" is judged at the backend boundary: no impl_free / impl_unregister call is made']),
+})
